@@ -62,6 +62,13 @@ def rules(rep, m):
                     lvs = [d["name"] for d in walk(kids(lp_)[0]) if d["kind"] == "VarDecl"]
                     if render(strip(kids(c)[1], casts=True)) in lvs:
                         walker = True
+        if len(a2) == 2 and re.fullmatch(r"\w+", a2[1]):
+            # a local that is given the located entry on one branch (and NULL, followed by a return, on the other)
+            vals_ = [xcx.canon(r_) for l_, r_, k_, n_ in inv.stores(pos)
+                     if r_ is not None and render(strip(l_, casts=True)) == a2[1] and k_ == "="]
+            vals_ = [v_ for v_ in vals_ if v_ not in ("NULL", "0")]
+            if vals_ and all("find_index" in v_ or v_.startswith("&" + pos.params[0]["name"]) for v_ in vals_):
+                a2[1] = vals_[0]
         if callee.lstrip("*(").rstrip(")").endswith("heap_compare") and len(a2) == 2 and walker and \
                 (a2[1].replace("(", "").replace(")", "").startswith(("&" + pos.params[0]["name"]))
                  or "find_index" in a2[1]) and inv.in_loop(pos, c):
